@@ -2,6 +2,9 @@ package main
 
 import (
 	"bytes"
+	"os"
+	"os/exec"
+	"path/filepath"
 	"errors"
 	"fmt"
 	"hash/crc32"
@@ -464,12 +467,72 @@ func run(a vh.Args) {
 			runStream(parseTCase(line), out, st)
 			continue
 		}
+		if len(f) >= 2 && f[1] == "G" {
+			runGlue(parseGCase(line), out, st)
+			continue
+		}
 		c := parseCase(line)
-		if c.kind == "S" {
+		if c.par {
+			runParallel(c, out, st)
+		} else if c.kind == "S" {
 			runSender(c, out, st)
 		} else {
 			runReceiver(c, out, st)
 		}
 	}
+	if a.Tier == "thorough" && os.Getenv("C15_RACE_CHILD") == "" {
+		raceRun(a, st)
+	}
 	st.Write(a.Out)
+}
+
+// raceRun (thorough tier): the concurrent cases (par=1, G) are run once more by a copy of
+// this harness built with the race detector; a reported data race in the code under
+// test is a violation.
+func raceRun(a vh.Args, st *vh.Stats) {
+	exe, err := os.Executable()
+	if err != nil {
+		return
+	}
+	src := filepath.Join(filepath.Dir(exe), "..", "..", "harness")
+	var sel []string
+	for _, line := range vh.ReadLines(a.Cases) {
+		f := strings.Fields(line)
+		if len(f) >= 2 && (f[1] == "G" || strings.Contains(line[:min(len(line), 200)], " par=1")) {
+			sel = append(sel, line)
+		}
+	}
+	if len(sel) == 0 {
+		return
+	}
+	dir, err := filepath.Abs(filepath.Join(a.Out, "race"))
+	if err != nil {
+		return
+	}
+	if err := os.MkdirAll(dir, 0755); err != nil {
+		return
+	}
+	bin := filepath.Join(dir, "c15race")
+	build := exec.Command("go", "build", "-race", "-tags", "verif", "-o", bin, "./cmd/c15")
+	build.Dir = src
+	build.Env = append(os.Environ(), "CGO_ENABLED=1", "GOFLAGS=-mod=mod", "GOPROXY=off", "GOSUMDB=off", "GOTOOLCHAIN=local")
+	if outb, err := build.CombinedOutput(); err != nil {
+		st.Notes["race"] = "race build not available: " + firstN(string(outb), 200)
+		return
+	}
+	cf := filepath.Join(dir, "cases.txt")
+	if err := os.WriteFile(cf, []byte(strings.Join(sel, "\n")+"\n"), 0644); err != nil {
+		return
+	}
+	run := exec.Command(bin, "run", "-tier", "thorough", "-cases", cf, "-out", dir)
+	run.Env = append(os.Environ(), "C15_RACE_CHILD=1", "GORACE=halt_on_error=0")
+	outb, err := run.CombinedOutput()
+	text := string(outb)
+	if i := strings.Index(text, "WARNING: DATA RACE"); i >= 0 {
+		st.Violation("race", "DATA-RACE reported by the race detector on the concurrent cases: "+firstN(strings.ReplaceAll(text[i:], "\n", " | "), 600))
+	} else if err != nil {
+		st.Violation("race", "RACE-RUN the race-enabled harness failed: "+err.Error()+" "+firstN(text, 300))
+	}
+	st.Notes["race"] = fmt.Sprintf("%d concurrent cases re-run under -race", len(sel))
+	_ = os.RemoveAll(dir)
 }
